@@ -46,3 +46,14 @@ pub fn model_detect_test(bit: u32) -> bool {
 /// them fails its obligation ("core operations never allocate").
 pub unsafe fn no_alloc(_l: core::alloc::Layout) -> *mut u8 { panic!("heap allocation reached") }
 pub unsafe fn no_realloc(_p: *mut u8, _l: core::alloc::Layout, _n: usize) -> *mut u8 { panic!("heap reallocation reached") }
+
+/// Model of `core::str::from_utf8_unchecked` that makes its safety precondition an
+/// obligation: the bytes must be valid UTF-8 - here, ASCII (all the crate ever passes).
+pub unsafe fn checked_from_utf8_unchecked(v: &[u8]) -> &str {
+    let mut i = 0;
+    while i < v.len() {
+        assert!(v[i] < 0x80, "from_utf8_unchecked called on non-ASCII bytes (undefined behaviour)");
+        i += 1;
+    }
+    core::mem::transmute(v)
+}
